@@ -1006,17 +1006,26 @@ func (c *DefaultCtx) Location(path string) {
 func (c *DefaultCtx) Method(override ...string) string {
 	if len(override) == 0 {
 		// Nothing to override, just return current method from context
-		return c.app.method(c.methodInt)
+		return c.currentMethod()
 	}
 
 	method := utils.ToUpper(override[0])
 	methodInt := c.app.methodInt(method)
 	if methodInt == -1 {
 		// Provided override does not valid HTTP method, no override, return current method
-		return c.app.method(c.methodInt)
+		return c.currentMethod()
 	}
 	c.methodInt = methodInt
 	return method
+}
+
+// currentMethod returns the request method. A method outside the configured RequestMethods has
+// no index (the server error handler and the 501 reply see such requests): report it as sent.
+func (c *DefaultCtx) currentMethod() string {
+	if c.methodInt == -1 {
+		return c.app.getString(c.fasthttp.Request.Header.Method())
+	}
+	return c.app.method(c.methodInt)
 }
 
 // MultipartForm parse form entries from binary.
